@@ -92,6 +92,11 @@ def main(argv=None):
                 if r0.status == "ok" and r.status != "ok":
                     unstable.append("%s flips to %s under smt.random_seed=%s (%s)" % (r.name, r.status, r.seed, r.undecided_reason or [failure_name(r.name, c) for c in r.failures]))
 
+    # thorough: mutation self-test of the machinery (a surviving mutant is a weakness of the check, not a violation of the property)
+    selftest = None
+    if tier == "thorough":
+        selftest = mutation_selftest(specs)
+
     # Kani jobs
     kani_results = []
     if cfg.get("kani"):
@@ -133,6 +138,11 @@ def main(argv=None):
 
     # ---- evidence -------------------------------------------------------------------------
     ev = build_evidence(a.pid, cfg, tier, seed, base, kani_results, violations, known_hits, foreign, undecided, unstable, time.time() - t0)
+    if selftest is not None:
+        ev["coverage"]["mutation_self_test"] = selftest
+        if selftest["survivors"]:
+            print("WARNING mutation self-test: %d of %d hand-made property-breaking edits were not detected: %s" % (
+                len(selftest["survivors"]), selftest["total"], "; ".join(x["new"][:60] for x in selftest["survivors"][:5])))
     os.makedirs(os.path.join(VERIF, "evidence"), exist_ok=True)
     with open(os.path.join(VERIF, "evidence", a.pid + ".json"), "w") as fh:
         json.dump(ev, fh, indent=1)
@@ -173,6 +183,53 @@ def main(argv=None):
         print("OK property=%s tier=%s obligations=%d discharged=%d wall=%.1fs" % (
             a.pid, tier, ev["coverage"]["obligations"], ev["coverage"]["discharged"], time.time() - t0))
     return rc
+
+
+def mutation_selftest(specs):
+    """Apply each committed hand-made edit (mutants.json) for the property's units to a scratch copy of /repo/src and require the
+    unit to report a failed obligation."""
+    import shutil
+    import subprocess
+    import tempfile
+    path = os.path.join(VERIF, "mutants.json")
+    if not os.path.exists(path):
+        return None
+    allm = json.load(open(path))["mutants"]
+    wanted = [(m, kw) for (m, kw) in specs]
+    todo = [x for x in allm if any(x["unit"] == m and x.get("kwargs", {}) == kw for m, kw in wanted)]
+    repo = os.environ.get("VERIF_REPO", "/repo")
+
+    def one(x):
+        d = tempfile.mkdtemp(prefix="verif-mut-", dir="/var/tmp")
+        try:
+            shutil.copytree(os.path.join(repo, "src"), os.path.join(d, "src"))
+            fp = os.path.join(d, x["file"])
+            txt = open(fp, encoding="utf-8").read()
+            if x["old"] not in txt:
+                return (x, "site-not-found")
+            open(fp, "w", encoding="utf-8").write(txt.replace(x["old"], x["new"], 1))
+            env = dict(os.environ, VERIF_REPO=d)
+            args = [sys.executable, "-m", "vf.devtool", x["unit"], "--no-canary"] + ["%s=%s" % kv for kv in x.get("kwargs", {}).items()]
+            # separate build dir per mutant so that parallel runs do not collide
+            env["VERIF_BUILD"] = os.path.join(d, "build")
+            p = subprocess.run(args, cwd=VERIF, env=env, stdout=subprocess.PIPE, stderr=subprocess.STDOUT, timeout=1500)
+            out = p.stdout.decode("utf-8", "replace")
+            st = "failed" if " status failed" in out else ("undecided" if " status undecided" in out else ("ok" if " status ok" in out else "error"))
+            return (x, st)
+        except Exception as e:  # noqa
+            return (x, "error: %r" % (e,))
+        finally:
+            shutil.rmtree(d, ignore_errors=True)
+
+    res = []
+    with cf.ThreadPoolExecutor(max_workers=4) as ex:
+        for x, st in ex.map(one, todo):
+            res.append((x, st))
+    killed = [x for x, st in res if st == "failed"]
+    return {"total": len(res), "killed": len(killed),
+            "undecided": [{"unit": x["unit"], "new": x["new"][:120]} for x, st in res if st == "undecided"],
+            "site_not_found": [{"unit": x["unit"], "old": x["old"][:120]} for x, st in res if st == "site-not-found"],
+            "survivors": [{"unit": x["unit"], "file": x["file"], "old": x["old"][:200], "new": x["new"][:200]} for x, st in res if st in ("ok",) or st.startswith("error")]}
 
 
 def build_evidence(pid, cfg, tier, seed, results, kani_results, violations, known_hits, foreign, undecided, unstable, wall):
